@@ -285,6 +285,12 @@ def run(ctx):
                 chB = [rowsB[(i * 8 + j) % len(rowsB)] for j in range(8)]
                 add(A.run_ippo_cont(zoo, [A.cgroup(A.LO_A, A.HI_A, "none", req, False, ch), A.cgroup(A.LO_A, A.HI_A, "none", req, False, ch2),
                                           A.cgroup([-4], [12], "none", req, False, chB)], training=training))      # IPPO wants a positive upper bound
+    # bounds that float32 cannot represent (a Box of dtype float64): the action as returned is inside the space
+    f64_fails, f64_rows = A.check_f64_bounds(ctx.seed)
+    for f in f64_fails:
+        ctx.violation(f["sig"], f["what"], f["replay"])
+    ctx.case(("f64-bounds", "DDPG/TD3"))
+    ctx.extra["f64_bound_rows"] = f64_rows
     ctx.extra["calls_recorded"] = len(traces)
     ctx.extra["share_encoders_used"] = dict(zoo.shared)
     ctx.extra["calls_by_algorithm"] = {}
